@@ -17,9 +17,20 @@ def spne():
     return m
 
 
+FIXED_GRID = [None]      # when set to a grid shape, generators that accept `fixed_grid_size` receive it (the simulators always pass it)
+_HAS_FIXED: dict = {}
+
+
 def gen(name, real_t, **kw):
     """Memoised generator call (closures over buffers are not memoised: pass _nocache=True)."""
     nocache = kw.pop("_nocache", False)
+    if FIXED_GRID[0] is not None and "fixed_grid_size" not in kw:
+        if name not in _HAS_FIXED:
+            import inspect
+
+            _HAS_FIXED[name] = "fixed_grid_size" in inspect.signature(getattr(spne(), name)).parameters
+        if _HAS_FIXED[name]:
+            kw["fixed_grid_size"] = tuple(FIXED_GRID[0])
     key = (name, real_t, tuple(sorted((k, repr(v)) for k, v in kw.items())), shim.BACKEND)
     if nocache or key not in _GEN_CACHE:
         g = getattr(spne(), name)(real_t=real_t, **kw)
@@ -303,7 +314,7 @@ def compare(name, code, spec, scale, exact_expected, real_t, mag=None):
     return None
 
 
-def replay_emit(e, real_t=np.float64, backend="compile", arena_mode="contig", num_threads=False):
+def replay_emit(e, real_t=np.float64, backend="compile", arena_mode="contig", num_threads=False, repeat=True):
     """Load the pre-state of one emitted Apply transition into real arrays, run the real
     kernel, compare every array with the post-state.  Returns list of mismatch texts."""
     shim.set_backend(backend)
@@ -316,7 +327,25 @@ def replay_emit(e, real_t=np.float64, backend="compile", arena_mode="contig", nu
     pvals = [Fraction(x) for x in ps] if backend == "exact" else [real_t(x) for x in ps]
     if op["name"] == "cplx" and backend == "exact":
         return ["skip"]
-    apply_op(op, s, v, pvals, real_t if backend != "exact" else np.float64, D, num_threads=num_threads)
+    # strided replays also hand the grid shape to the generators (`fixed_grid_size`), as the simulators do
+    FIXED_GRID[0] = shape if arena_mode != "contig" else None
+    try:
+        apply_op(op, s, v, pvals, real_t if backend != "exact" else np.float64, D, num_threads=num_threads)
+    finally:
+        FIXED_GRID[0] = None
+    errs = _compare_post(e, s, v, ps, op, backend, real_t, D)
+    if repeat and not errs:
+        # the same call again on the SAME arrays (pre-state written back in place): no per-buffer memory between calls
+        for a, pre in zip(s + v, e["pre"]["s"] + e["pre"]["v"]):
+            a[...] = shim.frac_array(np.asarray(pre)) if backend == "exact" else np.asarray(pre)
+        apply_op(op, s, v, pvals, real_t if backend != "exact" else np.float64, D, num_threads=num_threads)
+        errs = ["second call on the same arrays: " + x for x in _compare_post(e, s, v, ps, op, backend, real_t, D)]
+    if not arena.guards_intact():
+        errs.append("guard cells around a strided view were modified")
+    return errs
+
+
+def _compare_post(e, s, v, ps, op, backend, real_t, D):
     errs = []
     sc = scale_of(op)
     scaled = SCALED.get(op["name"], set())
@@ -333,6 +362,4 @@ def replay_emit(e, real_t=np.float64, backend="compile", arena_mode="contig", nu
             r = compare(f"{kind}[{j + 1}]", a, np.array(pz), sc if is_scaled else 1, exact_expected or not is_scaled, real_t, mag)
             if r:
                 errs.append(r)
-    if not arena.guards_intact():
-        errs.append("guard cells around a strided view were modified")
     return errs
